@@ -140,10 +140,19 @@ func (c *Channel) Send(ctx context.Context, x p2p.IOVec) error {
 func (c *Channel) Deliver(out, x []byte) ([]byte, error) {
 	now := time.Now()
 	var appData []byte
+	isInitHello := IsInitHello(x)
+	var sid [32]byte
+	if isInitHello {
+		sid = blake2b.Sum256(x)
+	}
 	if err := c.doThenSend(func() ([]byte, error) {
 		for i, se := range c.sessions {
 			s := se.Session
 			if s == nil {
+				continue
+			}
+			if isInitHello && se.ID != sid {
+				// an InitHello is only for the session which was created from it.
 				continue
 			}
 			readyBefore := s.IsReady()
@@ -173,10 +182,9 @@ func (c *Channel) Deliver(out, x []byte) ([]byte, error) {
 			return out, nil
 		}
 		// The message did not match a session so now check if we can create a new session.
-		if !IsInitHello(x) {
+		if !isInitHello {
 			return nil, errors.New("message did not match a session")
 		}
-		sid := blake2b.Sum256(x)
 		for _, se := range c.sessions {
 			if se.ID == sid {
 				// repeated InitHello, nothing to do.
